@@ -50,6 +50,10 @@ type cfCase struct {
 		NL    int      `json:"nl"`
 		Cut   int      `json:"cut"`
 	} `json:"file"`
+	// field-level CSV cases (fmt "csvf"): what the format prescribes for the file ("ok" | "err" |
+	// "any") and the segments (vertex pairs) of its well-formed rows, in order
+	Expect string  `json:"expect"`
+	Want   [][]int `json:"want"`
 }
 
 type cfRec struct {
@@ -71,6 +75,7 @@ type cfRec struct {
 	Panic   string `json:"panic"`
 	Noisy   bool   `json:"noisy"`
 	Hex     string `json:"hex,omitempty"`
+	Expect  string `json:"expect,omitempty"`
 }
 
 // coordinates of the case's vertices: exactly representable in float32, pairwise distinct
@@ -162,7 +167,12 @@ func cfRender(c *cfCase) []byte {
 		for j, t := range ln.Toks {
 			ws[j] = cfValueText(t.V)
 		}
-		buf.WriteString(strings.Join(ws, " "))
+		if c.Fmt == "csvf" {
+			// the tokens of a line are the fields of a CSV row; "~q" is a double quote
+			buf.WriteString(strings.ReplaceAll(strings.Join(ws, ","), "~q", "\""))
+		} else {
+			buf.WriteString(strings.Join(ws, " "))
+		}
 		if i < len(lines)-1 || c.File.NL == 1 {
 			buf.WriteByte('\n')
 		}
@@ -339,13 +349,21 @@ func cfDecoders(format string) []cfDecoder {
 				return 0, err, true
 			}},
 		}
-	case "csv":
+	case "csv", "csvf":
+		// the segments a file must decode to: the mesh's faces, or (field-level cases) those of
+		// its well-formed rows
+		wanted := func(c *cfCase) [][]int {
+			if c.Fmt == "csvf" {
+				return c.Want
+			}
+			return c.Mesh.Faces
+		}
 		return []cfDecoder{
 			{"DecodeCSV", func(data []byte, c *cfCase) (int, error, bool) {
 				segs, err := model2d.DecodeCSV(data)
-				ok := err == nil && len(segs) == len(c.Mesh.Faces)
+				ok := err == nil && len(segs) == len(wanted(c))
 				if ok {
-					for i, f := range c.Mesh.Faces {
+					for i, f := range wanted(c) {
 						a := model2d.XY(cfCoord(f[0]+1, 1), cfCoord(f[0]+1, 2))
 						b := model2d.XY(cfCoord(f[1]+1, 1), cfCoord(f[1]+1, 2))
 						if segs[i][0] != a || segs[i][1] != b {
@@ -358,12 +376,19 @@ func cfDecoders(format string) []cfDecoder {
 			{"SegmentCSVReader", func(data []byte, c *cfCase) (int, error, bool) {
 				r := fileformats.NewSegmentCSVReader(bytes.NewReader(data))
 				n := 0
+				same := true
 				for {
-					_, err := r.Read()
+					row, err := r.Read()
 					if err == io.EOF {
-						return n, nil, n == len(c.Mesh.Faces)
+						return n, nil, n == len(wanted(c)) && same
 					} else if err != nil {
 						return n, err, false
+					}
+					if w := wanted(c); n < len(w) {
+						f := w[n]
+						if row != [4]float64{cfCoord(f[0]+1, 1), cfCoord(f[0]+1, 2), cfCoord(f[1]+1, 1), cfCoord(f[1]+1, 2)} {
+							same = false
+						}
 					}
 					n++
 					if n > len(data)+2 {
@@ -486,9 +511,12 @@ func init() {
 				rec.Fault = c.Fault.Kind
 				rec.K, rec.J, rec.S = c.Fault.K, c.Fault.J, c.Fault.S
 				rec.Valid = valid
+				rec.Expect = c.Expect
 				rec.Len = len(data)
 				rec.Noisy = hangs > 0 // an abandoned goroutine may still be allocating
-				if rec.Outcome != "ok" && rec.Outcome != "err" || (valid && !(rec.Outcome == "ok" && rec.MeshOK)) {
+				unexpected := c.Expect == "err" && rec.Outcome != "err" || c.Expect == "ok" && !(rec.Outcome == "ok" && rec.MeshOK) ||
+					c.Expect == "any" && rec.Outcome == "ok" && !rec.MeshOK
+				if rec.Outcome != "ok" && rec.Outcome != "err" || (valid && !(rec.Outcome == "ok" && rec.MeshOK)) || unexpected {
 					h := data
 					if len(h) > 600 {
 						h = h[:600]
